@@ -32,6 +32,7 @@ import XdslModel.CSE
 import XdslModel.DeclFormat
 import XdslModel.PDL
 import XdslModel.RiscVValidate
+import XdslModel.IRWF
 /-!
 Model registry for the driver: `MODEL <name>` selects a `(state, lineStep)` pair.
 A continuation-passing encoding is used because the state types differ.
@@ -76,6 +77,7 @@ def run? (name : String) : Option Runner :=
   | "decl_format" => some fun k => k DeclFormat.lineStep {}
   | "pdl" => some fun k => k PDL.lineStep {}
   | "riscv_validate" => some fun k => k RiscV.TV.lineStep ()
+  | "ir_wf" => some fun k => k IRWF.lineStep {}
   | _ => none
 
 end Xdsl.Registry
